@@ -365,12 +365,14 @@ class Engine:
         elif nm.startswith(('_ZTT', '_ZTV')):
             # VTT / vtable of a libstdc++.so class (iostreams): every slot points into a block of zeros, so that the
             # inline constructor/destructor fragments that read a vbase offset (vptr[-3]) see offset 0
-            if 'dummy_vt' not in st.env:
-                d = st.alloc(512, 'const', 'dummy-vtable'); dobj = st.mem[d.obj]
-                for i in range(0, 512, 8): dobj.cells[i] = (8, 0)
-                st.env['dummy_vt'] = d.obj
-            for i in range(0, max(size, 8), 8): o.cells[i] = (8, P(st.env['dummy_vt'], 256))
+            for i in range(0, max(size, 8), 8): o.cells[i] = (8, s.dummy_vptr(st))
         return o
+    def dummy_vptr(s, st):
+        if 'dummy_vt' not in st.env:
+            d = st.alloc(512, 'const', 'dummy-vtable'); dobj = st.mem[d.obj]
+            for i in range(0, 512, 8): dobj.cells[i] = (8, 0)
+            st.env['dummy_vt'] = d.obj
+        return P(st.env['dummy_vt'], 256)
     def store_typed_init(s, o, off, t, v):
         M = s.M; r = M.resolve(t); c = r.__class__
         if c is Struct:
